@@ -462,6 +462,9 @@ func init() {
 				}
 			}
 			// (a1') control-flow joins in multi-slot consumers
+			for _, src := range gen.RecursionPrograms() {
+				kC01.Do(c, c01Case{Src: src, Input: run.TV{V: nil}})
+			}
 			for _, src := range gen.LiteralShapePrograms(c.N(6, 1)) {
 				for _, in := range []any{nil, 5, []any{7}} {
 					kC01.Do(c, c01Case{Src: src, Input: run.TV{V: in}})
